@@ -81,9 +81,9 @@ pub fn main(tier: Tier, seed: u64) -> i32 {
         // circuits: register reuse/alias, outputs that are inputs, duplicated outputs, plain
         let pick: Vec<usize> = match (tier.is_thorough(), n) {
             (true, _) => (0..feats.len()).collect(),
-            (false, 2) => vec![0, 2, 4, 7],
-            (false, 3) => vec![2, 4, 7],
-            (false, _) => vec![7],
+            (false, 2) => (0..feats.len()).collect(),
+            (false, 3) => vec![0, 2, 4, 5, 7],
+            (false, _) => vec![4, 7],
         };
         for fi in pick {
             let (name, c) = &feats[fi];
